@@ -55,7 +55,7 @@ def r_ident(r):
     if k < 0.25:
         return r.choice(["true_var", "false_case", "true1", "false0", "truex", "L", "u", "U", "R", "u8", "u8R", "LR", "Ru", "x8",
                          "sizeofx", "news", "_", "__x", "int", "e5", "E", "f", "l", "ul", "x1F", "b101", "deleted", "typeid_", "R_",
-                         "trueish", "falsetto", "_true", "a\\"[:1]])
+                         "trueish", "falsetto", "_true", "a"])
     while True:
         s = r.choice(IDS) + "".join(r.choice(IDC) for _ in range(r.choice([0, 0, 1, 2, 3, 5, 8, 20])))
         if s not in OPWORDS:
@@ -304,6 +304,23 @@ def main(argv):
     ck.correspond(hb, db, hs, label="lex", timeout=1500,
                   nontrivial=lambda h, obs: any(re.search(r"\be=\d+ \S", o) for o in obs),
                   ubsan_is_violation=r"tokenizer\.cpp|lang/token/|utils/string\.(cpp|hpp)|utils/lex\.cpp|types/primitive\.cpp|trie\.tpp")
+    # which token kinds / error paths the run exercised (read off the model's outputs, which equal the
+    # implementation's wherever the correspondence held)
+    if db and not ck.replay:
+        seen = {"I": 0, "P": 0, "O": 0, "N": 0, "S": 0, "C": 0, "M": 0, "U": 0}
+        raw = errs = 0
+        for obs in ck.run_model(db, hs):
+            for o in obs:
+                m = re.search(r"\be=(\d+)", o)
+                if not m:
+                    continue
+                errs += int(m.group(1)) > 0
+                for t in o.split()[1:]:
+                    if t[0] in seen and (len(t) == 1 or t[1] == ":"):
+                        seen[t[0]] += 1
+                        raw += t.startswith("S:") and int(t.split(":")[1]) & 1
+        ck.cov["counters"].update({"tokens_" + k: v for k, v in seen.items()})
+        ck.cov["counters"].update({"tokens_raw_string": raw, "tokenizations_with_errors": errs})
     kinds = {"R": 0, "T": 0, "E": 0, "U": 0, "G": 0}
     for h in hs:
         for o in h:
